@@ -9,22 +9,39 @@ theorem flat_addGroupIfMissing (gs : List (String × List Nat)) (g : String) : f
   · rfl
   · simp
 
-theorem tame_register (p : Pool) (r : Req) : Tame p (p.register r) :=
-  tame_of_eq _ _ rfl rfl rfl rfl rfl rfl (by
-    show (flat (addGroupIfMissing p.groups r.group)).Sublist (flat p.groups)
-    rw [flat_addGroupIfMissing]; exact List.Sublist.refl _)
+theorem freshReq_newReq (kind stars group sp remaining items nc) :
+    FreshReq (newReq kind stars group sp remaining items nc) :=
+  ⟨⟨nc, rfl, by simp [newReq, grantsL, Req.pend]⟩, fun _ h => by simp [newReq] at h⟩
+
+/-- registering a request whose own books are balanced -/
+theorem tame_register (p : Pool) (r : Req) (hr : FreshReq r) : Tame p (p.register r) := by
+  refine ⟨⟨rfl, rfl, rfl, rfl, rfl, rfl, rfl, fun h => h, ?_, fun _ tk' h => ⟨tk', h, rfl⟩, rfl⟩, by simp [register, emitRef], ?_⟩
+  · show (flat (addGroupIfMissing p.groups r.group)).Sublist (flat p.groups)
+    rw [flat_addGroupIfMissing]; exact List.Sublist.refl _
+  · intro m r' h
+    have h' : (p.reqs ++ [r])[m]? = some r' := h
+    rw [List.getElem?_append] at h'
+    split at h'
+    · exact Or.inl ⟨r', h', MSigLe.refl r'⟩
+    · rename_i hge
+      refine Or.inr ⟨by omega, ?_⟩
+      have : m - p.reqs.length = 0 := by
+        rcases Nat.lt_or_ge (m - p.reqs.length) 1 with h1 | h1
+        · omega
+        · rw [List.getElem?_eq_none (by simpa using h1)] at h'; cases h'
+      rw [this] at h'; simp at h'; subst h'; exact hr
 
 theorem tame_doApply (p : Pool) (num group sp) : Tame p (p.doApply num group sp).1 := by
   unfold doApply
-  repeat' (first | exact Tame.refl _ | exact tame_register _ _ | split | dsimp only)
+  repeat' (first | exact Tame.refl _ | exact tame_register _ _ (freshReq_newReq ..) | split | dsimp only)
 
 theorem tame_doMap (p : Pool) (stars items nc group sp) : Tame p (p.doMap stars items nc group sp).1 := by
   unfold doMap
-  repeat' (first | exact Tame.refl _ | exact tame_register _ _ | split | dsimp only)
+  repeat' (first | exact Tame.refl _ | exact tame_register _ _ (freshReq_newReq ..) | split | dsimp only)
 
 theorem tame_doStart (p : Pool) (num) : Tame p (p.doStart num).1 := by
   unfold doStart
-  repeat' (first | exact Tame.refl _ | (refine Tame.trans ?_ (tame_register _ _); exact tame_of_eq _ _ rfl rfl) | split | dsimp only)
+  repeat' (first | exact Tame.refl _ | (refine Tame.trans ?_ (tame_register _ _ (freshReq_newReq ..)); exact tame_of_eq _ _ rfl rfl) | split | dsimp only)
 
 theorem tame_doCancel (p : Pool) (ids) : Tame p (p.doCancel ids).1 := by
   unfold doCancel
@@ -47,7 +64,9 @@ theorem tame_popOrder (p : Pool) : Tame p p.popOrder.1 := by
 theorem tame_cancelGroupMetas (p : Pool) (g) : Tame p (p.cancelGroupMetas g) := by
   unfold cancelGroupMetas
   simp only
-  exact Tame.trans (tame_foldl _ _ (fun p m => tame_metaCancel p m) p) (tame_of_eq _ _ rfl rfl)
+  refine Tame.trans (tame_foldl _ _ (fun p m => tame_metaCancel p m) p) (tame_of_map _ _ _ rfl rfl rfl ?_)
+  intro x
+  split <;> exact ⟨rfl, rfl, rfl, Nat.le_refl _, fun h => h⟩
 
 theorem tame_cancelGroupBody (p p' : Pool) (g ids order) (h : p.cancelGroupBody g ids order = some p') : Tame p p' := by
   unfold cancelGroupBody at h
